@@ -136,7 +136,7 @@ def run(ctx):
     ctx.ob("U1", AF, "AXIBurst2Beat", "burst consumed only at beat ready & last", ok,
            "" if ok else f"{[(a.v, a.gtext()) for a in br]}: the request is dropped before all beats were issued or consumed twice")
     for t, v in (("ax_beat.first", "beat_count == 0"), ("ax_beat.last", "beat_count == ax_burst.len"), ("ax_beat.addr", "ax_burst.addr + beat_offset"),
-                 ("ax_beat.id", "ax_burst.id"), ("beat_size", "1 << ax_burst.size"), ("beat_wrap", "ax_burst.len << ax_burst.size")):
+                 ("ax_beat.id", "ax_burst.id"), ("beat_size", "2 ** ax_burst.size"), ("beat_wrap", "ax_burst.len << ax_burst.size")):
         d = fx.find(domain="comb", target=t)
         ok = len(d) == 1 and d[0].v == v and not d[0].guards
         ctx.ob("U1", AF, "AXIBurst2Beat", f"{t} = {v}", ok, "" if ok else f"{[a.v for a in d]}")
